@@ -186,6 +186,30 @@ def check_fold(ctx, repo: Repo, pid: str):
             gn = _names(par.test)
             ctx.check((amap is None or amap in gn), "FOLD", f"{tag}.copy.guard", "the copy is guarded by membership of j in the antipode map",
                       where, src(par.test), witness=src(par.test))
+            # the "is there an entry" part of the guard must be exact (truthiness / != 0): the three matrices (Boolean adjacency, border
+            # areas, centre distances) are folded by this one routine, and a magnitude threshold folds them differently
+            from ..astutil import Canon
+            scope_ = getattr(par, "_parent", None)
+            body_ = getattr(scope_, "body", []) if scope_ is not None else []
+            test_ = Canon(Canon.single_defs(body_)).expand(par.test) if body_ else par.test
+            thr = None
+            for c_ in ast.walk(test_):
+                if isinstance(c_, ast.Call) and src(c_.func).split(".")[-1] in ("isclose", "allclose"):
+                    thr = c_
+                elif isinstance(c_, ast.Compare) and len(c_.ops) == 1 and isinstance(c_.ops[0], (ast.Gt, ast.GtE, ast.Lt, ast.LtE)):
+                    sides = [c_.left, c_.comparators[0]]
+                    if any(isinstance(x_, ast.Constant) and isinstance(x_.value, (int, float)) and x_.value != 0 for x_ in sides) or \
+                            any(isinstance(x_, ast.BinOp) and isinstance(x_.op, ast.Pow) for x_ in sides) or \
+                            any(isinstance(x_, ast.Name) and "tol" in x_.id.lower() for x_ in sides):
+                        thr = c_
+            ctx.instance("FLOATTOL")
+            if thr is not None:
+                ctx.violate("FLOATTOL", f"{tag}.copy.threshold", "the fold decides 'is there an entry' with a magnitude threshold: a border area / "
+                            "distance below the tolerance that is reached only through the antipode is not folded although the Boolean adjacency "
+                            "of the same pair is, so adjacency, borders and distances no longer share one sparsity pattern", where, src(thr)[:160],
+                            witness=f"guard: {src(test_)[:200]}")
+            else:
+                ctx.ok("FLOATTOL", f"{tag}.copy.threshold", "the fold tests the presence of an entry exactly (no magnitude threshold)", where, src(par.test))
     if not found_copy:
         # vectorised forms: a column-wise copy is fine, an ADDITION of the two copies is not (pairs adjacent through both +q and -q
         # would get twice the distance / border)
